@@ -307,7 +307,7 @@ func oracleC03(x *Exec) []Finding {
 func relToks(v string) map[string]int {
 	m := map[string]int{}
 	for _, t := range strings.FieldsFunc(v, func(r rune) bool { return r == ' ' || r == '\t' || r == '\n' || r == '\f' || r == '\r' }) {
-		m[strings.ToLower(t)]++
+		m[asciiLower(t)]++
 	}
 	return m
 }
